@@ -292,6 +292,21 @@ NOT_APPLICABLE = {
            "no finite algebraic core in yadism to hand to an SMT solver",
 }
 
+# clauses added in rounds 9/10 (appended to the texts above)
+EXTRA = {
+    "C03": " Float constants q pi^k are read with one rational for pi, so analytic families close as exact identities; no function is excluded any more (the complex-trilogarithm local part of the NNLL asymptotic non-singlet is decided exactly).",
+    "C09": " Through the real compute_local the kernel list and the coefficient functions handed to the convolution correspond one to one, and heavy CC channels (also the LO delta) are convolved at x(1+m2/Q2).",
+    "C10": " The probed TMC point is preceded by a point at larger x on the same parent object (live cache dict).",
+    "C11": " The beam polarisation is symbolic; numpy of exs.py runs through the shim (tolerance tests are paths); variants with an earlier point at y = 0 exactly.",
+    "C13": " The exchange of massless equal-charge quarks is also proved in FFN0 (found and led to the repair of the FFN0 'missing'-term defect).",
+    "C14": " The compute_raw memo clause uses formal operator tokens that survive arithmetic, real convolutions decide when the structural claim fails; the shared-objects clause includes an earlier run on the same target dict object edited in place.",
+    "C15": " Token equalities are decided by z3 (one validity query per round trip). History: another output written to and read from the same location before; the object dumped once, edited in place, dumped again.",
+    "C16": " Cross sections on the strata where a coefficient of the documented combination is singular: z3 finds where a denominator can vanish inside the admissible domain, the real code runs on plain floats at solver-chosen points there.",
+    "C17": " apply_pdf runs under the path explorer (shortcuts for xiR = 1 / xiF = 1 are paths).",
+    "C18": " Frozen globals: module-level names read by kernels are compile-time constants of the machine code; code of the tree that rebinds one is reported with a machine-code replay (static analysis, not a solver query).",
+    "C20": " The output's cards share no mutable container with the caller's cards.",
+}
+
 PENDING = {}
 
 
@@ -310,7 +325,7 @@ def main():
             "evidence_file": f"evidence/{pid}.json",
             "replay_cmd_template": f"./vcheck {pid} --replay {{path}}",
             "engine": c.get("engine", "symex"),
-            "level_claimed": {"category": "other", "text": c["text"], "design_ref": c["design"]},
+            "level_claimed": {"category": "other", "text": c["text"] + EXTRA.get(pid, ""), "design_ref": c["design"]},
             "level_note": c["note"],
             "technique": c["technique"],
         })
